@@ -12,6 +12,23 @@ NOT_APPLICABLE = {}
 HOOK_COMMITS = []
 
 CHECKS = {
+    "C03": {
+        "run": "^TestC03_",
+        "rule": ("(a) stateful: rapid action sequences over {Add (optionally panicking), AddUnsubscribable, Add(nil), Unsubscribe, Complete/Error, Wait} on a Subscription / "
+                 "Subscriber against a set-of-pending-teardowns model; (a') 2-5 goroutines racing Unsubscribe/Complete/Error/Add/Next on one subscriber, hundreds of "
+                 "repetitions each; (b) every catalogue row and random chains over a manually driven source, Unsubscribe at every cut position from the harness, from "
+                 "inside Next and from other goroutines; rows that wait inside Subscribe over finite cold sources. Non-trivial = at least one teardown and an ending that "
+                 "is a cut or a race (not plain run-to-completion); distinct by descriptor hash."),
+        "quick": {"rapid": 300, "timeout": 300, "shards": 4},
+        "thorough": {"rapid": 4000, "timeout": 3000, "shards": 16},
+        "assumptions": COMMON_ASSUMPTIONS,
+        "technique": "stateful property-based testing (rapid state machine) + race repetition + enumerated cut positions with instrumented sources",
+        "level_text": ("Exploration. Teardown accounting is checked at three levels: the Subscription/Subscriber API against a sequential model (every teardown exactly once, "
+                       "late Add runs immediately, all teardowns run before the joined panic is re-raised and it unwraps to every cause, Wait returns, IsClosed tells the "
+                       "truth); races between the ways a subscription ends; and for every operator of the catalogue that, once the subscription is closed and Subscribe "
+                       "has returned, each upstream subscription's teardown ran exactly once and a TapOnFinalize below the pipeline ran exactly once."),
+        "level_note": ("Race part is statistical. Goroutine-leak freedom of asynchronous rows is asserted in the bubble-based checks (C14/C16/C17), not here."),
+    },
     "C08": {
         "run": "^TestC08_",
         "rule": ("sync clause: cases = (synchronous row or chain, params, script) driven one notification at a time through a manual source from the harness goroutine, "
